@@ -51,6 +51,49 @@ CHECKS['C04'] = dict(
          'expired items and at most cull_limit per shard.',
     note='Trusted: virtual clock substitution; expiry instants are positive; now == expire_time never generated.')
 
+CHECKS['C05'] = dict(
+    level='exploration', ref='3/C05',
+    technique='runtime monitoring: cooperative schedule fuzzer at SQL-statement/file-operation gates (timeout=0 '
+              'connections) + call/return history + Wing-Gong linearizability checker against a sequential map; '
+              'free-running threads/processes with injected delays, per-key check',
+    text='~1.6k fuzzed schedules of small programs (2-4 clients, shared and separate Cache objects, inline and '
+         'file-backed stamped values, LRU/statistics variant) and ~30 free-running thread/process runs per quick run; '
+         'whole histories incl. a final read-out are linearized; only lookups that missed while overlapping a write of '
+         'the same key are removed first (counted). Distinct interleavings are counted by trace hash.',
+    note='Interleavings inside SQLite are reached only by the free-running runs; step-capped or timed-out searches are '
+         'counted and never reported as held.')
+CHECKS['C06'] = dict(
+    level='exploration', ref='3/C06',
+    technique='runtime monitoring: abort-point enumeration of generated block bodies under the lock-step RefCache '
+              'monitor with an independent observer (isolation + all-or-nothing), stdlib deque/OrderedDict monitors for '
+              'Deque/Index blocks, schedule fuzzer with blocks as composite operations and snapshot readers',
+    text='Every raise point j of every generated body (three exception kinds, nested blocks, inner exceptions caught) '
+         'is executed; after an abort table dump, Settings, value files and a full read-out must equal the pre-block '
+         'snapshot, during the block an independent connection must see the pre-block state; concurrent part: composite '
+         'linearizability, no half-applied snapshot, no dirty read, foreign thread waits or times out.',
+    note='Reference is flat (outermost exit decides). No expired item exists when a block starts (lazy culls inside a '
+         'block cannot be observed from outside).')
+CHECKS['C07'] = dict(
+    level='fault_enumeration', ref='3/C07',
+    technique='runtime monitoring + fault injection: forked child SIGKILLs itself at EVERY probe gate of each program; '
+              'a different process judges contents, check(), writability and repair',
+    text='10 fixed programs (every mutating method of Cache/Deque/Index, blocks, maxlen trimming, bulk removals over '
+         '>100 rows, reopen) plus seeded random programs: all G gates of each are killed (about 3k kills per quick run); '
+         'contents must equal the state before or after the interrupted operation (multi-step methods: any post-commit '
+         'state of a dry run), every present key yields its complete stamped value, only unknown files / empty '
+         'directories remain and check(fix=True) removes them.',
+    note='SIGKILL = process death, not power loss. Sequential states come from a dry run of the same program.')
+CHECKS['C08'] = dict(
+    level='fault_enumeration', ref='3/C08',
+    technique='runtime monitoring + failpoint enumeration: one injected failure at each SQL/file gate of each '
+              'operation, unencodable values, lock timeouts, random histories and fuzzed concurrent programs, each '
+              'followed by the quiescent structural invariant, check(), len() and volume()',
+    text='32 operations x every failpoint gate (once, and persistently for file creation) x two configurations, 21 '
+         'unencodable-value cases, lock-timeout cases, ~11k history calls and ~240 concurrent programs per quick run; '
+         'after each the bookkeeping must match the content and later operations must work.',
+    note='Fault model excludes COMMIT/ROLLBACK and unlink/rmdir failures (no implementation can keep the invariant '
+         'when the OS refuses to delete).')
+
 NOT_YET = {}
 
 
